@@ -383,19 +383,27 @@ class Program(BlockBase):  # R201
 
         """
         # pylint: disable=unused-argument
+        # A parse that fails must leave nothing behind in the symbol tables
+        # (no open scope, no new, removed or altered table).
+        symbol_tables_state = SYMBOL_TABLES.get_state()
         try:
             return Base.__new__(cls, string, _deepcopy=_deepcopy)
         except NoMatchError:
+            SYMBOL_TABLES.set_state(symbol_tables_state)
             # At the moment there is no useful information provided by
             # NoMatchError so we pass on an empty string.
             raise FortranSyntaxError(string, "")
         except InternalSyntaxError as excinfo:
+            SYMBOL_TABLES.set_state(symbol_tables_state)
             # InternalSyntaxError is used when a syntax error has been
             # found in a rule that does not have access to the reader
             # object. This is then re-raised here as a
             # FortranSyntaxError, adding the reader object (which
             # provides line number information).
             raise FortranSyntaxError(string, excinfo)
+        except FortranSyntaxError:
+            SYMBOL_TABLES.set_state(symbol_tables_state)
+            raise
 
     def __getnewargs__(self):
         """Method to dictate the values passed to the __new__() method upon
